@@ -258,12 +258,13 @@ def check_c30(ctx):
     g2 = HP_SETS["gen_sim"]
     ctx.cov["constants"]["Hpack_Gen_sim"] = g2
     ctx.build("h2lib")
+    ctx.cov["checker_cmd"] = "cd specs/H2 && tlc -workers %d -config Hpack_MC.cfg -noGenerateSpecTE Hpack.tla" % vlib.NCPU
     _, base, sim, events = _par(
         lambda: ctx.tlc_must_pass(SPEC, "Hpack", "Hpack_MC.cfg", defines=mcd, timeout=3000),
         lambda: _gen(ctx, "GenHpack", "Hpack_Gen.cfg", g1, timeout=1500, label="exhaustive").cases,
-        lambda: _gen(ctx, "GenHpack", "Hpack_Gen.cfg", g2, mode="sim", num=400 if q else 6000, depth=40,
+        lambda: _gen(ctx, "GenHpack", "Hpack_Gen.cfg", g2, mode="sim", num=400 if q else 4000, depth=40,
                      label="sim").cases,
-        lambda: _hpack_record(ctx, [{"cases": 12 if q else 150, "ops": 150 if q else 400}], "record"))
+        lambda: _hpack_record(ctx, [{"cases": 12 if q else 100, "ops": 150 if q else 400}], "record"))
     for alt in range(0, 2 if q else 4):
         for c in base + sim:
             cases.append({"ops": c["ops"], "alt": alt})
@@ -379,7 +380,7 @@ def check_c31(ctx):
 
 # ---------------------------------------------------------------------------- C32
 
-FRAME_CTX_QUICK = ["none", "hdr1", "hdr1e", "pp1"]
+FRAME_CTX_QUICK = ["none", "hdr1", "hdr1e"]
 FRAME_CTX_ALL = ["none", "hdr1", "hdr1es", "hdr1c", "hdr1e", "hdrE", "pp1", "ppE"]
 
 
